@@ -16,6 +16,7 @@ import (
 	"path/filepath"
 	"sort"
 	"strings"
+	"sync"
 	"time"
 
 	"verif/harness/casefile"
@@ -169,7 +170,7 @@ func main() {
 	nprog, nruns := 3, 5
 	backends := []string{"go:", "go:with_reflection", "go:with_field_mask,with_reflection,gen_deep_equal", "go:no_fmt,keep_unknown_fields,json_enum_as_text", "fastgo:no_fmt", "go:template=slim"}
 	if *tier == "thorough" {
-		nprog, nruns = 24, 10
+		nprog, nruns = 16, 10
 		backends = append(backends, "fastgo:", "go:gen_setter,frugal_tag,reorder_fields,compatible_names", "go:with_reflection,thrift_streaming", "go:naming_style=apache,enum_as_int_32,use_type_alias=false", "fastgo:with_reflection,no_fmt")
 	}
 	procs := []int{1, 2, 4, 16, 3, 8, 1, 16, 5, 2}
@@ -188,6 +189,10 @@ func main() {
 	hist := map[string]int{}
 	rejected := 0
 	dirtyRuns := 0
+	cases := make([]*Case, nprog*len(backends))
+	dirtyOf := make([]int, nprog*len(backends))
+	var wg sync.WaitGroup
+	sem := make(chan struct{}, 6)
 	for p := 0; p < nprog; p++ {
 		files, main := genProgram(r, p)
 		src := filepath.Join(work, fmt.Sprintf("src%d", p))
@@ -196,100 +201,116 @@ func main() {
 			os.WriteFile(filepath.Join(src, n), []byte(t), 0o644)
 		}
 		for bi, be := range backends {
-			c := Case{Program: files, Main: main, Backend: be}
-			for k := 0; k < nruns; k++ {
-				// even runs share one output path (so the bytes sent to the plugin are comparable),
-				// odd runs each get their own, differently named, directory
-				dirID := 0
-				if k%2 == 1 {
-					dirID = k
+			p, bi, be, files, main, src := p, bi, be, files, main, src
+			slot := p*len(backends) + bi
+			wg.Add(1)
+			sem <- struct{}{}
+			go func() {
+				defer func() { <-sem; wg.Done() }()
+				dirtyRuns := 0
+				c := Case{Program: files, Main: main, Backend: be}
+				for k := 0; k < nruns; k++ {
+					// even runs share one output path (so the bytes sent to the plugin are comparable),
+					// odd runs each get their own, differently named, directory
+					dirID := 0
+					if k%2 == 1 {
+						dirID = k
+					}
+					outdir := filepath.Join(work, fmt.Sprintf("out-%d-%d-%d-%s", p, bi, dirID, strings.Repeat("x", dirID)))
+					rec := filepath.Join(work, fmt.Sprintf("rec-%d-%d-%d", p, bi, k))
+					cmd := exec.Command(*thriftgo, "-r", "-g", strings.TrimSuffix(be, ":"), "-p", "rec="+*plug, "-o", outdir, main)
+					cmd.Dir = src
+					cmd.Env = append(os.Environ(), fmt.Sprintf("GOMAXPROCS=%d", procs[k%len(procs)]), "VERIF_REC_OUT="+rec, "VERIF_REC_PATCH=1")
+					done := make(chan error, 1)
+					var outb []byte
+					go func() { var e error; outb, e = cmd.CombinedOutput(); done <- e }()
+					exit := 0
+					select {
+					case e := <-done:
+						if e != nil {
+							exit = 1
+							if ee, ok := e.(*exec.ExitError); ok {
+								exit = ee.ExitCode()
+							}
+						}
+					case <-time.After(120 * time.Second):
+						cmd.Process.Kill()
+						exit = 124
+					}
+					_ = outb
+					run := Run{Gomaxprocs: procs[k%len(procs)], Dir: dirID, Exit: exit, Files: digestTree(outdir)}
+					if data, err := os.ReadFile(rec); err == nil {
+						parts := strings.Fields(string(data))
+						if len(parts) >= 2 {
+							run.PlugRaw, run.PlugCanon = parts[0], parts[1]
+						}
+					}
+					c.Runs = append(c.Runs, run)
+					os.RemoveAll(outdir)
+					os.Remove(rec)
 				}
-				outdir := filepath.Join(work, fmt.Sprintf("out-%d-%d-%d-%s", p, bi, dirID, strings.Repeat("x", dirID)))
-				rec := filepath.Join(work, fmt.Sprintf("rec-%d-%d-%d", p, bi, k))
-				cmd := exec.Command(*thriftgo, "-r", "-g", strings.TrimSuffix(be, ":"), "-p", "rec="+*plug, "-o", outdir, main)
-				cmd.Dir = src
-				cmd.Env = append(os.Environ(), fmt.Sprintf("GOMAXPROCS=%d", procs[k%len(procs)]), "VERIF_REC_OUT="+rec, "VERIF_REC_PATCH=1")
-				done := make(chan error, 1)
-				var outb []byte
-				go func() { var e error; outb, e = cmd.CombinedOutput(); done <- e }()
-				exit := 0
-				select {
-				case e := <-done:
-					if e != nil {
+				// one more run into a directory that still holds the output of a previous, different run
+				// (same program, more options => longer files): "regardless of previous runs"
+				if c.Runs[0].Exit == 0 {
+					outdir := filepath.Join(work, fmt.Sprintf("out-%d-%d-dirty", p, bi))
+					lang := be[:strings.IndexByte(be, ':')]
+					big := strings.TrimSuffix(be, ":")
+					if strings.HasSuffix(be, ":") {
+						big = lang + ":gen_setter,gen_deep_equal,with_reflection,keep_unknown_fields"
+					} else {
+						big = be + ",gen_setter,gen_deep_equal,with_reflection,keep_unknown_fields"
+					}
+					pre := exec.Command(*thriftgo, "-r", "-g", big, "-o", outdir, main)
+					pre.Dir = src
+					preErr := pre.Run()
+					cmd := exec.Command(*thriftgo, "-r", "-g", strings.TrimSuffix(be, ":"), "-p", "rec="+*plug, "-o", outdir, main)
+					cmd.Dir = src
+					cmd.Env = append(os.Environ(), "GOMAXPROCS=4", "VERIF_REC_PATCH=1")
+					exit := 0
+					if err := cmd.Run(); err != nil {
 						exit = 1
-						if ee, ok := e.(*exec.ExitError); ok {
-							exit = ee.ExitCode()
+					}
+					if preErr == nil {
+						want := map[string]bool{}
+						for _, f := range c.Runs[0].Files {
+							want[f.Path] = true
 						}
-					}
-				case <-time.After(120 * time.Second):
-					cmd.Process.Kill()
-					exit = 124
-				}
-				_ = outb
-				run := Run{Gomaxprocs: procs[k%len(procs)], Dir: dirID, Exit: exit, Files: digestTree(outdir)}
-				if data, err := os.ReadFile(rec); err == nil {
-					parts := strings.Fields(string(data))
-					if len(parts) >= 2 {
-						run.PlugRaw, run.PlugCanon = parts[0], parts[1]
-					}
-				}
-				c.Runs = append(c.Runs, run)
-				os.RemoveAll(outdir)
-				os.Remove(rec)
-			}
-			// one more run into a directory that still holds the output of a previous, different run
-			// (same program, more options => longer files): "regardless of previous runs"
-			if c.Runs[0].Exit == 0 {
-				outdir := filepath.Join(work, fmt.Sprintf("out-%d-%d-dirty", p, bi))
-				lang := be[:strings.IndexByte(be, ':')]
-				big := strings.TrimSuffix(be, ":")
-				if strings.HasSuffix(be, ":") {
-					big = lang + ":gen_setter,gen_deep_equal,with_reflection,keep_unknown_fields"
-				} else {
-					big = be + ",gen_setter,gen_deep_equal,with_reflection,keep_unknown_fields"
-				}
-				pre := exec.Command(*thriftgo, "-r", "-g", big, "-o", outdir, main)
-				pre.Dir = src
-				preErr := pre.Run()
-				cmd := exec.Command(*thriftgo, "-r", "-g", strings.TrimSuffix(be, ":"), "-p", "rec="+*plug, "-o", outdir, main)
-				cmd.Dir = src
-				cmd.Env = append(os.Environ(), "GOMAXPROCS=4", "VERIF_REC_PATCH=1")
-				exit := 0
-				if err := cmd.Run(); err != nil {
-					exit = 1
-				}
-				if preErr == nil {
-					want := map[string]bool{}
-					for _, f := range c.Runs[0].Files {
-						want[f.Path] = true
-					}
-					var fs []FileDigest
-					for _, f := range digestTree(outdir) {
-						if want[f.Path] {
-							fs = append(fs, f)
+						var fs []FileDigest
+						for _, f := range digestTree(outdir) {
+							if want[f.Path] {
+								fs = append(fs, f)
+							}
 						}
+						// plugin stdin is not recorded for this run: copy the reference values
+						c.Runs = append(c.Runs, Run{Gomaxprocs: 4, Dir: 1000, Exit: exit, Files: fs, PlugRaw: c.Runs[0].PlugRaw, PlugCanon: c.Runs[0].PlugCanon})
+						dirtyRuns++
 					}
-					// plugin stdin is not recorded for this run: copy the reference values
-					c.Runs = append(c.Runs, Run{Gomaxprocs: 4, Dir: 1000, Exit: exit, Files: fs, PlugRaw: c.Runs[0].PlugRaw, PlugCanon: c.Runs[0].PlugCanon})
-					dirtyRuns++
+					os.RemoveAll(outdir)
 				}
-				os.RemoveAll(outdir)
-			}
-			evals++
-			hist[be]++
-			if c.Runs[0].Exit != 0 {
-				rejected++
-			}
-			if c.Runs[0].Exit == 0 && len(c.Runs[0].Files) >= 2 {
-				nontrivial++
-			}
-			if len(samples) < 2 {
-				samples = append(samples, map[string]interface{}{"main": main, "backend": be, "files_per_run": len(c.Runs[0].Files), "runs": len(c.Runs), "first_run": c.Runs[0]})
-			}
-			if err := w.Add(coqCase(c), c); err != nil {
-				fmt.Fprintln(os.Stderr, err)
-				os.Exit(2)
-			}
+				cases[slot] = &c
+				dirtyOf[slot] = dirtyRuns
+			}()
+		}
+	}
+	wg.Wait()
+	for slot, cp := range cases {
+		c := *cp
+		be := c.Backend
+		dirtyRuns += dirtyOf[slot]
+		evals++
+		hist[be]++
+		if c.Runs[0].Exit != 0 {
+			rejected++
+		}
+		if c.Runs[0].Exit == 0 && len(c.Runs[0].Files) >= 2 {
+			nontrivial++
+		}
+		if len(samples) < 2 {
+			samples = append(samples, map[string]interface{}{"main": c.Main, "backend": be, "files_per_run": len(c.Runs[0].Files), "runs": len(c.Runs), "first_run": c.Runs[0]})
+		}
+		if err := w.Add(coqCase(c), c); err != nil {
+			fmt.Fprintln(os.Stderr, err)
+			os.Exit(2)
 		}
 	}
 	w.Close()
@@ -297,8 +318,8 @@ func main() {
 		"shards": w.Shards, "total": w.Total(),
 		"stats": map[string]interface{}{
 			"evaluations": evals, "distinct_nontrivial": nontrivial,
-			"rule":        "one case = one (generated multi-file program, backend option set) run nruns times under GOMAXPROCS 1..16 into different output directories with a recording plugin; non-trivial = thriftgo succeeded and wrote >= 2 files; programs are distinct by construction (seeded, indexed)",
-			"samples":     samples, "runs_per_case": nruns, "programs": nprog, "option_sets": hist, "rejected_by_impl": rejected, "runs_into_dirty_directory": dirtyRuns,
+			"rule":    "one case = one (generated multi-file program, backend option set) run nruns times under GOMAXPROCS 1..16 into different output directories with a recording plugin; non-trivial = thriftgo succeeded and wrote >= 2 files; programs are distinct by construction (seeded, indexed)",
+			"samples": samples, "runs_per_case": nruns, "programs": nprog, "option_sets": hist, "rejected_by_impl": rejected, "runs_into_dirty_directory": dirtyRuns,
 		},
 	})
 }
